@@ -78,7 +78,7 @@ pub fn run(out: &mut Out, seed: u64, thorough: bool) {
         let s: Schema = if i % 2 == 1 { gen::rand_schema(&mut rng, &gen::SchemaOpts { wide_ids: false, globals: i % 3 != 0, max_depth: 4 }) } else { gen::s3() };
         dynspec::install(s.clone());
         let big = i % 25 == 24;
-        let doc = gen::rand_doc(&mut rng, &s, &DocOpts { max_tags: if big { 60 } else { 12 }, big, unk_prob: (if i % 3 == 0 { 1 } else { 0 }, 3), ..Default::default() });
+        let doc = gen::rand_doc(&mut rng, &s, &DocOpts { max_tags: if big { 60 } else if i % 5 == 3 { 20 } else { 12 }, big, unk_prob: (if i % 3 == 0 { 1 } else { 0 }, 3), ..Default::default() });
         let mut bytes = gen::encode_doc(&doc);
         if big { // exceed the 64 KiB transfer buffer: pad with a root-level global element if there is one
             if let Some(g) = s.entries.iter().find(|e| e.path.len() == 1 && matches!(e.path[0], ebml_iterable::specs::PathPart::Global((None, None))) && e.ty == ebml_iterable::specs::TagDataType::Binary) {
@@ -86,9 +86,31 @@ pub fn run(out: &mut Out, seed: u64, thorough: bool) {
             }
         }
         match i % 6 { 1 => crate::drv_reader::mutate(&mut rng, &mut bytes), 2 => { let l = rng.below(bytes.len() + 1); bytes.truncate(l); } _ => {} }
+        // a header that runs past the end of its (possibly buffered) parent: the first byte of some child becomes the start of a
+        // long id (0x01: 8 bytes, 0x10: 4, 0x20: 3) or its size field becomes an 8-byte one
+        let corrupt_child = i % 5 == 3 && !big;
+        let mut must_buffer: Option<u64> = None;
+        if corrupt_child {
+            let lay = gen::layout(&doc);
+            // preferred: the last child of a known-size master that is followed by at least 9 more bytes (that master gets buffered)
+            let mut cands: Vec<(usize, u64)> = Vec::new();
+            for (m, l) in lay.iter().enumerate() {
+                if !l.is_master || l.unk { continue; }
+                let end = l.off + l.hlen + l.size;
+                if let Some(last) = lay.iter().enumerate().filter(|(_, k)| k.parent == Some(m)).map(|(_, k)| k.off).max() {
+                    if bytes.len() >= end + 9 { cands.push((last, l.id)); }
+                }
+            }
+            let kids: Vec<usize> = lay.iter().filter(|l| l.depth > 0).map(|l| l.off).collect();
+            let at = if !cands.is_empty() && rng.chance(3, 4) { let (a, id) = *rng.pick(&cands); must_buffer = Some(id); Some(a) } else if !kids.is_empty() { Some(*rng.pick(&kids)) } else { None };
+            if let Some(at) = at {
+                if at < bytes.len() { if rng.chance(2, 3) { bytes[at] = *rng.pick(&[0x01u8, 0x10, 0x20, 0x02]); } else if at + 1 < bytes.len() { bytes[at + 1] = 0x01; } }
+            }
+        }
         if bytes.len() > 200_000 { continue; }
         let mut ms = Vec::new(); for d in &doc { d.masters(&mut ms); } ms.sort(); ms.dedup();
-        let buffer: Vec<u64> = if i % 4 == 3 || i % 7 == 5 { ms.into_iter().filter(|_| rng.chance(1, 2)).collect() } else { vec![] };
+        let buffer: Vec<u64> = if i % 4 == 3 || i % 7 == 5 || corrupt_child { ms.into_iter().filter(|_| rng.chance(1, 2)).collect() } else { vec![] };
+        let mut buffer = buffer; if let Some(id) = must_buffer { if !buffer.contains(&id) { buffer.push(id); } }
         case_header::<DynTag>(out, n, "reader", &s.ids(), json!({"rel":"sched"})); n += 1;
         let mut cfg = ReaderCfg::strict(); cfg.buffer = buffer.clone();
         run_reader::<DynTag>(out, "blocking", &bytes, &cfg, &[], &Calls::UntilEnd { extra: 1, max_calls: 3 * bytes.len() + 50 });
